@@ -18,10 +18,10 @@ CLAIMS = {
 }
 CLAIMS.update({
  "C08": ("proof", "C08.* theorems on the generator-object model (generate_internal resets its scratch state first, so the result is a function of configuration and this call's input for every history) plus stream S6: call histories (generate / generate_from_arbitrary / reset, mixed inputs, the PickleMutator pattern) on one real generator compared with a fresh one; S3 ties the model of one call to the code byte for byte.", "§6 C08", "Lean theorem on the generator-object model + S6 history correspondence + S3"),
- "C09": ("proof", "C09.total over the exact generator model: for every lawful entropy source and every configuration the model returns Ok with non-empty bytes, i.e. none of the modelled panic sites is reachable and all loops terminate; tied by S3 (byte-exact agreement with generate_from_arbitrary, exhaustive for inputs of length <= 1 quick / <= 2 thorough), S4/S5 (no panic in mutators/adapters) and the oracle (every generation call returns a pickle). Native stack exhaustion / allocator failure are observed, not modelled (partial).", "§6 C09", "Lean totality theorem + S3 exact correspondence + oracle"),
+ "C09": ("proof", "C09.total over the exact generator model: for every lawful entropy source and every configuration the model returns Ok with non-empty bytes, i.e. none of the modelled panic sites is reachable and all loops terminate; tied by S3 (byte-exact agreement with generate_from_arbitrary — exhaustive for inputs of length <= 1 quick / <= 2 thorough — and with seeded generate() through the ChaCha8 port), S4/S5 (no panic in mutators/adapters) and the oracle (every generation call returns a pickle). Native stack exhaustion / allocator failure are observed, not modelled (partial).", "§6 C09", "Lean totality theorem + S3 exact correspondence + oracle"),
  "C15": ("proof", "C15.rate0 / C15.rate1 on the mutator model with the IEEE comparison on bit patterns, for every entropy source; S4 calls every real mutator at rate 0.0/1.0 in both entropy modes (incl. empty/exhausted input) and S2 counts applied mutations of whole generations at rate 0.", "§6 C15", "Lean theorems + S4 correspondence (exact in fuzzer-bytes mode)"),
  "C16": ("proof", "C16.* contract theorems per mutator for all values and all lawful entropy sources; S4: the contract predicates evaluated on the real mutators' results (boundaries exhaustively) and exact agreement with the model in fuzzer-bytes mode.", "§6 C16", "Lean theorems + S4 correspondence"),
- "C18": ("proof", "C18.arb_lawful: the exact port of arbitrary::Unstructured satisfies the entropy contract for every remaining-bytes state; table theorem for ASCII_CHARS; S5: both real sources on a grid (Arbitrary side must equal the port exactly; exhaustive for inputs of length <= 1 quick / <= 2 thorough).", "§6 C18", "Lean theorem on the exact Unstructured port + S5 correspondence"),
+ "C18": ("proof", "C18.arb_lawful and C18.rand_lawful: the exact ports of BOTH entropy sources — arbitrary::Unstructured, and ChaCha8Rng::seed_from_u64 with rand 0.9's samplers (widening multiply + bias correction, BlockRng word/dword reads, try_fill_bytes) — satisfy the whole entropy contract for every source state (every remaining-bytes string; every generator state, whatever words the block function yields); table theorem for ASCII_CHARS; exhausted-input fallbacks; S5: every adapter draw of both real sources on a grid must equal its port exactly (exhaustive for inputs of length <= 1 quick / <= 2 thorough; fresh ChaCha generators over sampled seeds).", "§6 C18, §14", "Lean theorems on the exact ports of both sources + S5 exact correspondence"),
 })
 CLAIMS.update({
  "C07": ("proof", "Proved: C07.keys_order_irrelevant (the only iteration over an unordered structure is followed by a sort, so any hash-iteration order gives the same key list) and the model's generation being a function of (configuration, entropy) by construction; S3 shows fuzzer-bytes generation equals that model byte for byte. The runtime residue a model cannot exhibit (OS randomness, clock, addresses, thread identity in the compiled Rust) is observed: identical outputs across freshly spawned processes (new hash seeds / ASLR), a case alone vs inside a long-lived process, and 16 threads generating concurrently vs sequentially. Partial in the sense of DESIGN §6 C07.", "§6 C07", "Lean theorem (order independence) + S3 exact correspondence + multi-process / multi-thread comparison"),
